@@ -115,6 +115,12 @@ def cases(tier, seed):
     for perm in [(1, 2, 3, 0), (3, 0, 2, 1), (2, 3, 0, 1)]:
         add("ps.kron", dict(perm=list(perm), rdims=[2, 3, 2, 2], cdims=[3, 2, 1, 2], entries="complex", seed=seed), "permute_systems/kron")
     add("ps.index", dict(kind="matrix", perm=[1, 2, 0], row_only=False, inv=False, dimform="2row", rdims=[2, 3, 2], cdims=[3, 2, 2], defaults=True), "permute_systems/defaults")
+    # Boolean flags written as 0 / 1 or as numpy bools
+    for ff in ("int", "npbool"):
+        for ro in (False, True):
+            for inv in (False, True):
+                add("ps.index", dict(kind="matrix", perm=[1, 2, 0], row_only=ro, inv=inv, dimform="2row", rdims=[2, 3, 2], cdims=[3, 2, 2], flagform=ff), "permute_systems/matrix/flags-%s" % ff)
+            add("swap.index", dict(sys=[1, 3], row_only=ro, dimform="2row", rdims=[2, 3, 2], cdims=[3, 2, 2], flagform=ff), "swap/flags-%s" % ff)
     # swap
     for n in (2, 3, 4):
         for d in ([2, 3, 2, 3][:n], [3, 1, 2, 2][:n]):
